@@ -23,6 +23,7 @@ RULE = ("case = one random schema (3-7 fields drawn from 18 field kinds: require
         "instances. Oracle: list(to_dict(**kw).items()) == PROJECT(effective options, plain output) incl. key "
         "order, nested classes projected with their own effective options. distinct_nontrivial = distinct "
         "(schema, lattice point, keyword vector, instance) tuples.")
+RULE += " Additions: two Alias annotations on one field; options inherited from a parent dialect and passed through Dialect.merge; the first (compiling) call of a lazy class made with every keyword vector."
 ASSUMPTIONS = ["exhaustive over the stated lattice per schema (exhaustive=true refers to that); schemas are random",
                "effective option = keyword > call dialect > Config.dialect > Config > False, as the property states"]
 BUDGET_S = {"quick": 240, "thorough": 1500}
